@@ -71,8 +71,9 @@ def renderHdrs (fs : List Fld) : String :=
   let sorted := reg.foldl (fun acc f => insertFld f acc) []
   if sorted.isEmpty then "-" else ";".intercalate (sorted.map fun f => strOf f.1 ++ "=" ++ toHex f.2)
 
+/-- the value of a pseudo-header field: a later one overwrites an earlier one (`Header::try_from`) -/
 def fieldOf (fs : List Fld) (name : String) : String :=
-  match fs.find? (fun f => f.1 == bytesOf name) with
+  match fs.reverse.find? (fun f => f.1 == bytesOf name) with
   | some f => strOf f.2
   | none => ""
 
@@ -265,6 +266,10 @@ def specHttp : H3.Headers.Http where
   parsePath v := if pathChars v then some v else none
   uriBuild s a p := if a.isEmpty then none else some { scheme := s, authority := some a, path := p }
 
+/-- RFC 9114 §4.2 calls a message with connection-specific fields malformed; C12's oracle does not demand it and h3
+    does not look: no opinion -/
+def connSpecific : List String := ["connection", "keep-alive", "proxy-connection", "transfer-encoding", "upgrade", "te"]
+
 /-- C12's oracle (`H3.Spec.Headers`, written from RFC 9114 §4.2 / §4.3 and the property text of C12), by position -/
 def wellFormed (pos : Pos) (fs : List Fld) : Bool :=
   match pos with
@@ -283,7 +288,7 @@ def classifyBlock (pos : Pos) (mfs : Option Nat) (b : List Nat) : BlockClass :=
     if (match mfs with | some m => decide (H3.Spec.Qpack.size fs > m) | none => false) then .oversized
     else if !urlValuesKnown fs then .undecodable
     else if !wellFormed pos fs then .malformed
-    else if !inVocabulary pos fs || fs.any (fun f => hasUpper f.1) then .undecodable
+    else if !inVocabulary pos fs || fs.any (fun f => hasUpper f.1) || fs.any (fun f => connSpecific.contains (strOf f.1)) then .undecodable
     else .ok fs
 
 /-- a message as RFC 9114 §4.1 frames it: U* H (U|D)* (H U*)?, read off the tokens of the framing specification -/
